@@ -179,6 +179,23 @@ fn rvalue_json<'tcx>(tcx: TyCtxt<'tcx>, body: &Body<'tcx>, r: &Rvalue<'tcx>, clo
     }
 }
 
+fn macro_chain(sp: rustc_span::Span) -> String {
+    // names of the macros in the expansion backtrace, innermost first
+    let mut s = String::from("[");
+    let mut first = true;
+    for ed in sp.macro_backtrace() {
+        if let rustc_span::ExpnKind::Macro(_, name) = ed.kind {
+            if !first {
+                s.push(',');
+            }
+            first = false;
+            s.push_str(&esc(&name.to_string()));
+        }
+    }
+    s.push(']');
+    s
+}
+
 fn line_of(tcx: TyCtxt<'_>, sp: rustc_span::Span) -> (String, usize, bool) {
     let exp = sp.from_expansion();
     let sp2 = sp.source_callsite();
@@ -362,7 +379,7 @@ impl rustc_driver::Callbacks for Cb {
                         let fop = if callee == "null" { operand_json(tcx, body, func) } else { "null".into() };
                         let _ = write!(
                             out,
-                            "{{\"k\":\"call\",\"callee\":{},\"decl\":{},\"pretty\":{},\"res\":{},\"gargs\":{},\"args\":{},\"dst\":{},\"target\":{},\"unwind\":{},\"fop\":{},\"line\":{},\"exp\":{}}}",
+                            "{{\"k\":\"call\",\"callee\":{},\"decl\":{},\"pretty\":{},\"res\":{},\"gargs\":{},\"args\":{},\"dst\":{},\"target\":{},\"unwind\":{},\"fop\":{},\"line\":{},\"exp\":{},\"mac\":{}}}",
                             callee,
                             decl,
                             cpretty,
@@ -377,7 +394,8 @@ impl rustc_driver::Callbacks for Cb {
                             },
                             fop,
                             tl,
-                            texp
+                            texp,
+                            if texp { macro_chain(term.source_info.span) } else { "[]".to_string() }
                         );
                     }
                     TerminatorKind::SwitchInt { discr, targets } => {
